@@ -250,6 +250,9 @@ func (s *Solver) CheckSat(timeoutMs int, as ...*Term) string {
 	if r, ok := s.cache[a.ID]; ok {
 		return r
 	}
+	if len(s.emitted) > 40000 {
+		s.restart()
+	}
 	if s.modelSat(a) {
 		s.ModelHits++
 		atomic.AddInt64(&GStats.ModelHits, 1)
@@ -553,4 +556,19 @@ func (s *Solver) getValueCmd() string {
 	}
 	sb.WriteString("))\n")
 	return sb.String()
+}
+
+// restart replaces the z3 process (the accumulated definitions are dropped and re-emitted on demand).
+func (s *Solver) restart() {
+	n, err := NewSolver()
+	if err != nil {
+		return
+	}
+	s.in.Close()
+	s.cmd.Process.Kill()
+	s.cmd.Wait()
+	s.cmd, s.in, s.out = n.cmd, n.in, n.out
+	s.emitted = map[int]bool{}
+	s.declared = map[string]bool{}
+	s.vars = nil
 }
